@@ -3,14 +3,17 @@
 //! Names and kinds: `Query A B` objects, `I J` interfaces, `U` union, `E` enum, `In` input object.
 //! `Query` is always defined and is the query root (its absence is an operator of space (ii)).
 //! Exhaustive structure: which names are defined, which defined interfaces each object /
-//! interface declares, which defined objects are members of `U`, 1 or 2 fields (`f`, `g`) per
-//! object / interface / input object.
-//! Field types come from {Int, Int!, [Int], A, A!, I, U, In, In!, [In!]} restricted to defined
-//! names (dangling references are an operator of space (ii)); they are enumerated exhaustively
-//! while the type system has ≤ `exh_defs` definitions and as Dev(0) deviations from `Int` above.
-//! Dev(1): one argument on a field, from {x: Int, x: Int!, y: Int, y: Int!, x: In, x: A}.
-//! Dev(2): oddities — no fields / no enum values, interface implementing itself, non-object union
-//! members (I, E, In), `@oneOf`.
+//! interface declares, which defined objects are members of `U`.
+//! Everything else is a *decoration* of the plain type system in which every object / interface /
+//! input object has the two fields `f: Int`, `g: Int`:
+//!   * a field type from {Int, Int!, [Int], A, A!, I, U, In, In!, [In!]} restricted to defined
+//!     names (dangling references are an operator of space (ii));
+//!   * one argument on a field, from {x: Int, x: Int!, y: Int, y: Int!, x: In, x: A};
+//!   * one field only / no field at all; no enum value; interface implementing itself;
+//!     non-object union member (I, E, In); `@oneOf`.
+//! Decorations are deviations of one class whose budget depends on the number of definitions
+//! (`SmallCfg::budget`); field types are enumerated exhaustively (all combinations) while the
+//! type system has ≤ `exh_defs` definitions.
 
 use crate::ir::{arg, field, put};
 use agv_engine::explore::{Chooser, Class};
@@ -23,6 +26,18 @@ pub const NAMES: [&str; 8] = ["Query", "A", "B", "I", "J", "U", "E", "In"];
 pub struct SmallCfg {
     pub max_defs: usize,
     pub exh_defs: usize,
+    /// decoration budget for type systems with ≤3, 4 and 5 definitions (Dev(0), Dev(1), Dev(2))
+    pub budget: [u32; 3],
+}
+
+impl SmallCfg {
+    pub fn class_for(defs: usize) -> Class {
+        Class::Dev(match defs {
+            0..=3 => 0,
+            4 => 1,
+            _ => 2,
+        })
+    }
 }
 
 fn type_menu(has: &dyn Fn(&str) -> bool) -> Vec<Type> {
@@ -43,10 +58,10 @@ fn arg_menu(has: &dyn Fn(&str) -> bool) -> Vec<Option<Arg>> {
     v
 }
 
-fn n_fields(ch: &mut Chooser, owner: &str) -> usize {
-    match ch.pick_costed(&format!("{owner}.nf"), &[Class::Exhaustive, Class::Exhaustive, Class::Dev(2)]) {
-        0 => 1,
-        1 => 2,
+fn n_fields(ch: &mut Chooser, deco: Class, owner: &str) -> usize {
+    match ch.pick(deco, &format!("{owner}.nf"), 3) {
+        0 => 2,
+        1 => 1,
         _ => 0,
     }
 }
@@ -64,7 +79,8 @@ pub fn generate(ch: &mut Chooser, g: &SmallCfg) -> Schema {
     let has = move |n: &str| defs2.contains(&n);
     let menu = type_menu(&has);
     let args = arg_menu(&has);
-    let tclass = if defs.len() <= g.exh_defs { Class::Exhaustive } else { Class::Dev(0) };
+    let deco = SmallCfg::class_for(defs.len());
+    let tclass = if defs.len() <= g.exh_defs { Class::Exhaustive } else { deco };
     let fnames = ["f", "g"];
 
     for name in &defs {
@@ -77,19 +93,19 @@ pub fn generate(ch: &mut Chooser, g: &SmallCfg) -> Schema {
                         continue;
                     }
                     if i == *name {
-                        if ch.flag(Class::Dev(2), &format!("{name} implements itself")) {
+                        if ch.flag(deco, &format!("{name} implements itself")) {
                             interfaces.push(i.to_string());
                         }
                     } else if ch.any(&format!("{name} implements {i}"), 2) == 1 {
                         interfaces.push(i.to_string());
                     }
                 }
-                let nf = n_fields(ch, name);
+                let nf = n_fields(ch, deco, name);
                 let mut fields: Vec<FieldT> = Vec::new();
                 for fname in fnames.iter().take(nf) {
                     let ty = menu[ch.pick(tclass, &format!("{name}.{fname}:"), menu.len())].clone();
                     let mut f = field(fname, ty);
-                    if let Some(a) = &args[ch.dev(1, &format!("{name}.{fname}()"), args.len())] {
+                    if let Some(a) = &args[ch.pick(deco, &format!("{name}.{fname}()"), args.len())] {
                         f.args.push(a.clone());
                     }
                     fields.push(f);
@@ -104,19 +120,19 @@ pub fn generate(ch: &mut Chooser, g: &SmallCfg) -> Schema {
                     }
                 }
                 for m in ["I", "E", "In"] {
-                    if has(m) && ch.flag(Class::Dev(2), &format!("U has {m}")) {
+                    if has(m) && ch.flag(deco, &format!("U has {m}")) {
                         members.push(m.to_string());
                     }
                 }
                 put(&mut s, "U", Kind::Union { members });
             }
             "E" => {
-                let values = if ch.flag(Class::Dev(2), "E empty") { vec![] } else { vec![("X".to_string(), None, None)] };
+                let values = if ch.flag(deco, "E empty") { vec![] } else { vec![("X".to_string(), None, None)] };
                 put(&mut s, "E", Kind::Enum { values });
             }
             "In" => {
-                let one_of = ch.flag(Class::Dev(2), "In @oneOf");
-                let nf = n_fields(ch, "In");
+                let one_of = ch.flag(deco, "In @oneOf");
+                let nf = n_fields(ch, deco, "In");
                 let mut fields = Vec::new();
                 for fname in fnames.iter().take(nf) {
                     let ty = menu[ch.pick(tclass, &format!("In.{fname}:"), menu.len())].clone();
